@@ -7,11 +7,317 @@ pub open spec fn has_children(s: Store, v: Uuid) -> bool { exists|c: Uuid| #[tri
 /// "only one such object will be contained in the chain of parent-child relationships beginning with the value in latest.
 /// All other objects are invalid and not visible outside this type": a child is served if it is the latest version or has children itself
 pub open spec fn true_child(s: Store, p: Uuid, c: Uuid) -> bool { has_child_obj(s, p, c) && (latest_of(s) == Some(c) || has_children(s, c)) }
-/// what cleanup may do (its own correctness is C10, not decided here): only deletions; `latest` and the object of the latest version stay
+/// what cleanup may do as far as add_version is concerned: only deletions, and everything that is neither a version nor a snapshot
+/// object (`latest`, `salt`) stays.  What it may delete among versions and snapshots is C10: `cleanup_post` below.
+pub open spec fn sub_store(b: Store, a: Store) -> bool { forall|n: Seq<char>| #![trigger b.dom().contains(n)] b.dom().contains(n) ==> a.dom().contains(n) && b[n] == a[n] }
+pub open spec fn is_vs_name(n: Seq<char>) -> bool { (exists|p: Uuid, c: Uuid| n == #[trigger] vname(p, c)) || (exists|v: Uuid| n == #[trigger] sname(v)) }
+pub open spec fn kept_other(a: Store, b: Store) -> bool { forall|n: Seq<char>| #![trigger b.dom().contains(n)] a.dom().contains(n) && !is_vs_name(n) ==> b.dom().contains(n) }
 pub open spec fn cleanup_rel(a: Store, b: Store) -> bool {
-    &&& forall|n: Seq<char>| b.dom().contains(n) ==> a.dom().contains(n) && #[trigger] b[n] == a[n]
+    &&& sub_store(b, a)
+    &&& kept_other(a, b)
     &&& a.dom().contains(latest_name()) ==> b.dom().contains(latest_name())
-    &&& forall|p: Uuid, c: Uuid| a.dom().contains(#[trigger] vname(p, c)) && latest_of(a) == Some(c) ==> b.dom().contains(vname(p, c))
+}
+// ---- C10: which objects cleanup may delete (sequentially: no request of another client in between) ----
+//@props C10
+/// every version has one parent (ids are fresh, A12): the chain from `latest` is then a function of the stored objects
+pub open spec fn unique_parent(s: Store) -> bool {
+    forall|p1: Uuid, p2: Uuid, c: Uuid| #![trigger has_child_obj(s, p1, c), has_child_obj(s, p2, c)] has_child_obj(s, p1, c) && has_child_obj(s, p2, c) ==> p1 == p2
+}
+pub open spec fn parent_in(s: Store, c: Uuid) -> Option<Uuid> {
+    if exists|p: Uuid| has_child_obj(s, p, c) { Some(choose|p: Uuid| has_child_obj(s, p, c)) } else { None }
+}
+/// the k-th version back from `l` (the latest version) along the parent links of the stored version objects
+pub open spec fn anc(s: Store, l: Option<Uuid>, k: nat) -> Option<Uuid>
+    decreases k
+{
+    if k == 0 { l } else { match anc(s, l, (k - 1) as nat) { Some(x) => parent_in(s, x), None => None } }
+}
+/// v-P-C is the k-th link of the chain that starts at the latest version
+pub open spec fn chain_link(s: Store, l: Option<Uuid>, k: nat, p: Uuid, c: Uuid) -> bool { anc(s, l, k) == Some(c) && anc(s, l, k + 1) == Some(p) }
+pub open spec fn on_chain(s: Store, l: Option<Uuid>, p: Uuid, c: Uuid) -> bool { exists|k: nat| #[trigger] chain_link(s, l, k, p, c) }
+/// "versions older than MAX_VERSION_AGE_SECS": 180 days before the one clock reading of this call (nothing is old if the clock is before 1970)
+pub open spec fn retention_threshold() -> u64 {
+    if clock_before_epoch() { 0 } else if clock_secs() >= 15552000 { (clock_secs() - 15552000) as u64 } else { 0 }
+}
+/// no version nearer to the latest one than the m-th has a snapshot
+pub open spec fn no_snap_before(s0: Store, l: Option<Uuid>, m: nat) -> bool {
+    forall|j: nat| j < m ==> (match #[trigger] anc(s0, l, j) { Some(x) => !s0.dom().contains(sname(x)), None => true })
+}
+/// a version object may go if it is not on the chain and cannot join it (its parent is not the latest version), or if it is on the
+/// chain at or before the retained snapshot `ls` and older than the retention age
+pub open spec fn ver_deleted_ok(s0: Store, ct0: Map<Seq<char>, u64>, ls: Option<(Uuid, nat)>, p: Uuid, c: Uuid) -> bool {
+    ||| (!on_chain(s0, latest_of(s0), p, c) && Some(p) != latest_of(s0))
+    ||| (match ls { Some(sm) => exists|k: nat| k >= sm.1 && #[trigger] chain_link(s0, latest_of(s0), k, p, c) && ct0[vname(p, c)] < retention_threshold(), None => false })
+}
+#[verifier::opaque]
+pub open spec fn cleanup_shape(s0: Store, ct0: Map<Seq<char>, u64>, cur: Store, ls: Option<(Uuid, nat)>) -> bool {
+    &&& forall|p: Uuid, c: Uuid| #![trigger has_child_obj(cur, p, c)] has_child_obj(s0, p, c) && !has_child_obj(cur, p, c) ==> ver_deleted_ok(s0, ct0, ls, p, c)
+    &&& forall|v: Uuid| #![trigger cur.dom().contains(sname(v))] s0.dom().contains(sname(v)) && !cur.dom().contains(sname(v)) ==> (match ls { Some(sm) => sm.0 != v, None => false })
+    &&& match ls { Some(sm) => anc(s0, latest_of(s0), sm.1) == Some(sm.0) && cur.dom().contains(sname(sm.0)) && no_snap_before(s0, latest_of(s0), sm.1)
+            && (exists|n: nat| anc(s0, latest_of(s0), n) is None), None => true }
+}
+/// C10, sequentially: a deleted snapshot is made redundant by a retained snapshot of a version on the chain that is nearer to the latest
+/// version than any other snapshot; a deleted version is off the chain and unable to join it, or at/before that retained snapshot and old
+pub open spec fn cleanup_post(s0: Store, ct0: Map<Seq<char>, u64>, cur: Store) -> bool { exists|ls: Option<(Uuid, nat)>| #[trigger] cleanup_shape(s0, ct0, cur, ls) }
+
+pub open spec fn vers_ok(vs: Seq<(Uuid, Uuid, u64)>, s0: Store, ct0: Map<Seq<char>, u64>) -> bool {
+    &&& forall|c: Uuid, p: Uuid, t: u64| #![trigger vs.contains((c, p, t))] vs.contains((c, p, t)) ==> has_child_obj(s0, p, c) && t == ct0[vname(p, c)]
+    &&& forall|c: Uuid, p: Uuid| #![trigger has_child_obj(s0, p, c)] has_child_obj(s0, p, c) ==> vs.contains((c, p, ct0[vname(p, c)]))
+}
+#[verifier::opaque]
+pub open spec fn listed(vs: Seq<(Uuid, Uuid, u64)>, all: Seq<Seq<char>>, allct: Seq<u64>, k: int) -> bool {
+    forall|c: Uuid, p: Uuid, t: u64| #![trigger vs.contains((c, p, t))] vs.contains((c, p, t)) <==> exists|j: int| 0 <= j < k && #[trigger] all[j] == vname(p, c) && allct[j] == t
+}
+#[verifier::opaque]
+pub open spec fn snaps_listed(ss: Set<Uuid>, all: Seq<Seq<char>>, k: int) -> bool {
+    forall|v: Uuid| #![trigger ss.contains(v)] ss.contains(v) <==> exists|j: int| 0 <= j < k && #[trigger] all[j] == sname(v)
+}
+/// the reverse chain built by walking back from the latest version for n steps
+#[verifier::opaque]
+pub open spec fn chain_map(rc: Map<Uuid, Uuid>, s0: Store, l: Option<Uuid>, n: nat) -> bool {
+    &&& forall|k: nat| k < n ==> (match #[trigger] anc(s0, l, k) { Some(x) => rc.dom().contains(x) && anc(s0, l, k + 1) == Some(rc[x]), None => false })
+    &&& forall|x: Uuid| #![trigger rc.dom().contains(x)] rc.dom().contains(x) ==> exists|k: nat| k < n && #[trigger] anc(s0, l, k) == Some(x)
+}
+pub open spec fn walk_done(rc: Map<Uuid, Uuid>, s0: Store, l: Option<Uuid>, n: nat) -> bool { chain_map(rc, s0, l, n) && anc(s0, l, n + 1) is None }
+
+pub proof fn lemma_anc_none_after(s: Store, l: Option<Uuid>, j: nat, k: nat)
+    requires anc(s, l, j) is None, j <= k,
+    ensures anc(s, l, k) is None,
+    decreases k
+{
+    if k > j { lemma_anc_none_after(s, l, j, (k - 1) as nat); }
+}
+/// the walk is complete: v-P-C is a link of the chain exactly if the reverse chain maps C to P
+pub proof fn lemma_walk_links(rc: Map<Uuid, Uuid>, s0: Store, l: Option<Uuid>, n: nat, p: Uuid, c: Uuid)
+    requires walk_done(rc, s0, l, n),
+    ensures on_chain(s0, l, p, c) <==> (rc.dom().contains(c) && rc[c] == p),
+{
+    reveal(chain_map);
+    if on_chain(s0, l, p, c) {
+        let k = choose|k: nat| #[trigger] chain_link(s0, l, k, p, c);
+        if k >= n { lemma_anc_none_after(s0, l, n + 1, k + 1); }
+    }
+    if rc.dom().contains(c) && rc[c] == p {
+        let k = choose|k: nat| k < n && #[trigger] anc(s0, l, k) == Some(c);
+        assert(chain_link(s0, l, k, p, c));
+    }
+}
+/// a link found in the reverse chain while standing at the j-th version is the j-th link
+pub proof fn lemma_link_at(rc: Map<Uuid, Uuid>, s0: Store, l: Option<Uuid>, n: nat, j: nat, x: Uuid)
+    requires walk_done(rc, s0, l, n), anc(s0, l, j) == Some(x), rc.dom().contains(x),
+    ensures chain_link(s0, l, j, rc[x], x), has_child_obj(s0, rc[x], x),
+{
+    reveal(chain_map);
+    let k = choose|k: nat| k < n && #[trigger] anc(s0, l, k) == Some(x);
+    assert(anc(s0, l, k + 1) == parent_in(s0, x));
+    assert(anc(s0, l, j + 1) == parent_in(s0, x));
+}
+/// one step of listing the version objects: the name at position k parses to (p, c) and was pushed, or does not parse and was skipped
+pub open spec fn listed_step(before: Seq<(Uuid, Uuid, u64)>, after: Seq<(Uuid, Uuid, u64)>, nm: Seq<char>, t: u64) -> bool {
+    ||| (exists|p: Uuid, c: Uuid| nm == #[trigger] vname(p, c) && after == before.push((c, p, t)))
+    ||| ((forall|p: Uuid, c: Uuid| nm != #[trigger] vname(p, c)) && after == before)
+}
+pub proof fn lemma_listed_step(before: Seq<(Uuid, Uuid, u64)>, after: Seq<(Uuid, Uuid, u64)>, all: Seq<Seq<char>>, allct: Seq<u64>, k: int)
+    requires listed(before, all, allct, k), 0 <= k < all.len(), allct.len() == all.len(), listed_step(before, after, all[k], allct[k]),
+    ensures listed(after, all, allct, k + 1),
+{
+    reveal(listed);
+    assert forall|c2: Uuid, p2: Uuid, t2: u64| after.contains((c2, p2, t2)) <==> (exists|j: int| 0 <= j < k + 1 && #[trigger] all[j] == vname(p2, c2) && allct[j] == t2) by {
+        if exists|p: Uuid, c: Uuid| all[k] == #[trigger] vname(p, c) && after == before.push((c, p, allct[k])) {
+            let (p, c) = choose|p: Uuid, c: Uuid| all[k] == #[trigger] vname(p, c) && after == before.push((c, p, allct[k]));
+            axiom_names(p2, c2, p, c);
+            if after.contains((c2, p2, t2)) {
+                let i = choose|i: int| 0 <= i < after.len() && after[i] == (c2, p2, t2);
+                if i < before.len() { assert(before[i] == (c2, p2, t2)); assert(before.contains((c2, p2, t2))); } else { assert(all[k] == vname(p2, c2)); }
+            }
+            if exists|j: int| 0 <= j < k + 1 && #[trigger] all[j] == vname(p2, c2) && allct[j] == t2 {
+                let j = choose|j: int| 0 <= j < k + 1 && #[trigger] all[j] == vname(p2, c2) && allct[j] == t2;
+                if j < k { assert(before.contains((c2, p2, t2))); let i = choose|i: int| 0 <= i < before.len() && before[i] == (c2, p2, t2); assert(after[i] == (c2, p2, t2)); }
+                else { assert(after[before.len() as int] == (c2, p2, t2)); }
+            }
+        } else {
+            if exists|j: int| 0 <= j < k + 1 && #[trigger] all[j] == vname(p2, c2) && allct[j] == t2 {
+                let j = choose|j: int| 0 <= j < k + 1 && #[trigger] all[j] == vname(p2, c2) && allct[j] == t2;
+                assert(j < k);
+            }
+        }
+    }
+}
+/// everything listed: the vector holds exactly the stored version objects with their creation times
+pub proof fn lemma_listed_done(vs: Seq<(Uuid, Uuid, u64)>, all: Seq<Seq<char>>, allct: Seq<u64>, s0: Store, ct0: Map<Seq<char>, u64>)
+    requires listed(vs, all, allct, all.len() as int), allct.len() == all.len(),
+        forall|n: Seq<char>| #![trigger all.contains(n)] all.contains(n) <==> s0.dom().contains(n) && "v-"@.is_prefix_of(n),
+        forall|i: int| 0 <= i < all.len() ==> #[trigger] allct[i] == ct0[all[i]],
+    ensures vers_ok(vs, s0, ct0),
+{
+    reveal(listed);
+    assert forall|c2: Uuid, p2: Uuid, t2: u64| vs.contains((c2, p2, t2)) <==> (has_child_obj(s0, p2, c2) && t2 == ct0[vname(p2, c2)]) by {
+        axiom_name_prefixes(p2, c2);
+        if has_child_obj(s0, p2, c2) && t2 == ct0[vname(p2, c2)] {
+            assert(all.contains(vname(p2, c2)));
+            let j = choose|j: int| 0 <= j < all.len() && all[j] == vname(p2, c2);
+            assert(allct[j] == ct0[all[j]]);
+        }
+        if vs.contains((c2, p2, t2)) {
+            let j = choose|j: int| 0 <= j < all.len() && #[trigger] all[j] == vname(p2, c2) && allct[j] == t2;
+            assert(all.contains(all[j]));
+            assert(allct[j] == ct0[all[j]]);
+        }
+    }
+}
+pub open spec fn snaps_step(before: Set<Uuid>, after: Set<Uuid>, nm: Seq<char>) -> bool {
+    ||| (exists|v: Uuid| nm == #[trigger] sname(v) && after == before.insert(v))
+    ||| ((forall|v: Uuid| nm != #[trigger] sname(v)) && after == before)
+}
+pub proof fn lemma_snaps_step(before: Set<Uuid>, after: Set<Uuid>, all: Seq<Seq<char>>, k: int)
+    requires snaps_listed(before, all, k), 0 <= k < all.len(), snaps_step(before, after, all[k]),
+    ensures snaps_listed(after, all, k + 1),
+{
+    reveal(snaps_listed);
+    assert forall|v: Uuid| after.contains(v) <==> (exists|j: int| 0 <= j < k + 1 && #[trigger] all[j] == sname(v)) by {
+        if exists|w: Uuid| all[k] == #[trigger] sname(w) && after == before.insert(w) {
+            let w = choose|w: Uuid| all[k] == #[trigger] sname(w) && after == before.insert(w);
+            axiom_names(v, v, w, w);
+            if exists|j: int| 0 <= j < k + 1 && #[trigger] all[j] == sname(v) {
+                let j = choose|j: int| 0 <= j < k + 1 && #[trigger] all[j] == sname(v);
+                if j < k { assert(before.contains(v)); }
+            }
+            if before.contains(v) { let j = choose|j: int| 0 <= j < k && #[trigger] all[j] == sname(v); assert(0 <= j < k + 1 && all[j] == sname(v)); }
+            if v == w { assert(all[k] == sname(v)); }
+        } else {
+            if exists|j: int| 0 <= j < k + 1 && #[trigger] all[j] == sname(v) {
+                let j = choose|j: int| 0 <= j < k + 1 && #[trigger] all[j] == sname(v);
+                assert(j < k);
+            }
+            if before.contains(v) { let j = choose|j: int| 0 <= j < k && #[trigger] all[j] == sname(v); assert(0 <= j < k + 1 && all[j] == sname(v)); }
+        }
+    }
+}
+/// the set holds exactly the versions that have a snapshot object in the store that was listed
+pub proof fn lemma_snaps_done(ss: Set<Uuid>, all: Seq<Seq<char>>, cur: Store)
+    requires snaps_listed(ss, all, all.len() as int),
+        forall|n: Seq<char>| #![trigger all.contains(n)] all.contains(n) <==> cur.dom().contains(n) && "s-"@.is_prefix_of(n),
+    ensures forall|v: Uuid| #![trigger ss.contains(v)] ss.contains(v) <==> cur.dom().contains(sname(v)),
+{
+    reveal(snaps_listed);
+    assert forall|v: Uuid| ss.contains(v) <==> cur.dom().contains(sname(v)) by {
+        axiom_name_prefixes(v, v);
+        if ss.contains(v) { let j = choose|j: int| 0 <= j < all.len() && #[trigger] all[j] == sname(v); assert(all.contains(all[j])); }
+        if cur.dom().contains(sname(v)) { assert(all.contains(sname(v))); let j = choose|j: int| 0 <= j < all.len() && all[j] == sname(v); }
+    }
+}
+pub proof fn lemma_inits(s0: Store, ct0: Map<Seq<char>, u64>, all: Seq<Seq<char>>, allct: Seq<u64>, l: Option<Uuid>)
+    ensures cleanup_shape(s0, ct0, s0, None), listed(Seq::<(Uuid, Uuid, u64)>::empty(), all, allct, 0), snaps_listed(Set::<Uuid>::empty(), all, 0),
+        chain_map(Map::<Uuid, Uuid>::empty(), s0, l, 0),
+{
+    reveal(cleanup_shape); reveal(listed); reveal(snaps_listed); reveal(chain_map);
+}
+/// one step of the walk back from the latest version
+pub proof fn lemma_chain_step(rc: Map<Uuid, Uuid>, s0: Store, l: Option<Uuid>, n: nat, c: Uuid, p: Uuid)
+    requires chain_map(rc, s0, l, n), anc(s0, l, n) == Some(c), has_child_obj(s0, p, c), unique_parent(s0),
+    ensures chain_map(rc.insert(c, p), s0, l, n + 1), anc(s0, l, n + 1) == Some(p),
+{
+    reveal(chain_map);
+    assert(parent_in(s0, c) == Some(p));
+    assert(anc(s0, l, n + 1) == Some(p));
+    let rc2 = rc.insert(c, p);
+    assert forall|k: nat| k < n + 1 implies (match #[trigger] anc(s0, l, k) { Some(x) => rc2.dom().contains(x) && anc(s0, l, k + 1) == Some(rc2[x]), None => false }) by {
+        if k < n {
+            let x = anc(s0, l, k)->Some_0;
+            if x == c { assert(anc(s0, l, k + 1) == parent_in(s0, c)); }
+        }
+    }
+    assert forall|x: Uuid| #![trigger rc2.dom().contains(x)] rc2.dom().contains(x) implies exists|k: nat| k < n + 1 && #[trigger] anc(s0, l, k) == Some(x) by {
+        if x == c { assert(anc(s0, l, n) == Some(x)); } else { let k = choose|k: nat| k < n && #[trigger] anc(s0, l, k) == Some(x); assert(k < n + 1 && anc(s0, l, k) == Some(x)); }
+    }
+}
+/// as long as no snapshot is retained, none has been deleted
+pub proof fn lemma_no_snapshot_deleted(s0: Store, ct0: Map<Seq<char>, u64>, cur: Store, v: Uuid)
+    requires cleanup_shape(s0, ct0, cur, None), s0.dom().contains(sname(v)),
+    ensures cur.dom().contains(sname(v)),
+{
+    reveal(cleanup_shape);
+}
+/// the retained snapshot is fixed: everything deleted so far stays justified
+pub proof fn lemma_set_ls(s0: Store, ct0: Map<Seq<char>, u64>, cur: Store, sv: Uuid, m: nat, nend: nat)
+    requires cleanup_shape(s0, ct0, cur, None), anc(s0, latest_of(s0), m) == Some(sv), cur.dom().contains(sname(sv)), no_snap_before(s0, latest_of(s0), m),
+        anc(s0, latest_of(s0), nend) is None,
+    ensures cleanup_shape(s0, ct0, cur, Some((sv, m))),
+{
+    reveal(cleanup_shape);
+}
+pub proof fn lemma_names_other()
+    ensures !is_vs_name(latest_name()), !is_vs_name("salt"@),
+{
+    assert forall|p: Uuid, c: Uuid| latest_name() != #[trigger] vname(p, c) && "salt"@ != vname(p, c) by { axiom_names(p, c, p, c); }
+    assert forall|v: Uuid| latest_name() != #[trigger] sname(v) && "salt"@ != sname(v) by { axiom_names(v, v, v, v); }
+}
+/// deleting a version object that may go keeps the shape
+pub proof fn lemma_del_version(s0: Store, ct0: Map<Seq<char>, u64>, cur: Store, ls: Option<(Uuid, nat)>, p: Uuid, c: Uuid, up: bool)
+    requires sub_store(cur, s0), kept_other(s0, cur), up ==> cleanup_shape(s0, ct0, cur, ls), up ==> ver_deleted_ok(s0, ct0, ls, p, c),
+    ensures sub_store(cur.remove(vname(p, c)), s0), kept_other(s0, cur.remove(vname(p, c))), up ==> cleanup_shape(s0, ct0, cur.remove(vname(p, c)), ls),
+{
+    reveal(cleanup_shape);
+    let nxt = cur.remove(vname(p, c));
+    assert(is_vs_name(vname(p, c)));
+    assert forall|p2: Uuid, c2: Uuid| has_child_obj(s0, p2, c2) && !has_child_obj(nxt, p2, c2) implies !has_child_obj(cur, p2, c2) || (p2 == p && c2 == c) by { axiom_names(p2, c2, p, c); }
+    assert forall|v: Uuid| nxt.dom().contains(sname(v)) == cur.dom().contains(sname(v)) by { axiom_names(p, c, v, v); }
+}
+/// deleting a snapshot other than the retained one keeps the shape
+pub proof fn lemma_del_snapshot(s0: Store, ct0: Map<Seq<char>, u64>, cur: Store, sm: (Uuid, nat), v: Uuid, up: bool)
+    requires sub_store(cur, s0), kept_other(s0, cur), up ==> cleanup_shape(s0, ct0, cur, Some(sm)), v != sm.0,
+    ensures sub_store(cur.remove(sname(v)), s0), kept_other(s0, cur.remove(sname(v))), up ==> cleanup_shape(s0, ct0, cur.remove(sname(v)), Some(sm)),
+{
+    reveal(cleanup_shape);
+    let nxt = cur.remove(sname(v));
+    assert(is_vs_name(sname(v)));
+    assert forall|p2: Uuid, c2: Uuid| has_child_obj(nxt, p2, c2) == has_child_obj(cur, p2, c2) by { axiom_names(p2, c2, v, v); }
+    assert forall|v2: Uuid| s0.dom().contains(sname(v2)) && !nxt.dom().contains(sname(v2)) implies !cur.dom().contains(sname(v2)) || v2 == v by { axiom_names(v2, v2, v, v); }
+    axiom_names(sm.0, sm.0, v, v);
+}
+pub proof fn lemma_anc_shift(s: Store, l: Option<Uuid>, a: nat, b: nat, d: nat)
+    requires anc(s, l, a) == anc(s, l, b),
+    ensures anc(s, l, a + d) == anc(s, l, b + d),
+    decreases d
+{
+    if d > 0 { lemma_anc_shift(s, l, a, b, (d - 1) as nat); }
+}
+/// a version seen twice on the walk back makes the walk go round for ever
+pub proof fn lemma_anc_periodic(s: Store, l: Option<Uuid>, k: nat, q: nat, j: nat)
+    requires anc(s, l, k) == anc(s, l, k + q), anc(s, l, k) is Some, q > 0,
+    ensures anc(s, l, j) is Some,
+    decreases j
+{
+    if j <= k + q {
+        if anc(s, l, j) is None { lemma_anc_none_after(s, l, j, k + q); }
+    } else {
+        lemma_anc_periodic(s, l, k, q, (j - q) as nat);
+        lemma_anc_shift(s, l, k, k + q, (j - q - k) as nat);
+    }
+}
+/// C10, what remains: every link of the chain that is nearer to the latest version than the newest snapshot on the chain (all links
+/// if the chain has no snapshot) is still there, with its bytes -- a fresh replica can start from the retained snapshot (or from the
+/// first version) and every replica based on a retained version can go on
+pub proof fn lemma_cleanup_keeps_history(s0: Store, ct0: Map<Seq<char>, u64>, cur: Store, k: nat, p: Uuid, c: Uuid)
+    requires sub_store(cur, s0), cleanup_post(s0, ct0, cur), chain_link(s0, latest_of(s0), k, p, c), has_child_obj(s0, p, c),
+        no_snap_before(s0, latest_of(s0), k + 1),
+    ensures has_child_obj(cur, p, c) && cur[vname(p, c)] == s0[vname(p, c)],
+{
+    reveal(cleanup_shape);
+    let l = latest_of(s0);
+    let ls = choose|ls: Option<(Uuid, nat)>| #[trigger] cleanup_shape(s0, ct0, cur, ls);
+    if !has_child_obj(cur, p, c) {
+        assert(ver_deleted_ok(s0, ct0, ls, p, c));
+        assert(on_chain(s0, l, p, c));
+        let sm = ls->Some_0;
+        let k2 = choose|k2: nat| k2 >= sm.1 && #[trigger] chain_link(s0, l, k2, p, c) && ct0[vname(p, c)] < retention_threshold();
+        assert(anc(s0, l, sm.1) == Some(sm.0) && s0.dom().contains(sname(sm.0)));
+        if sm.1 > k {
+            // the same version at position k and at position k2 >= sm.1 > k: the walk would never end, but it did
+            let n = choose|n: nat| anc(s0, l, n) is None;
+            lemma_anc_periodic(s0, l, k, (k2 - k) as nat, n);
+        }
+    }
 }
 /// add_version accepted `v`: the parent was the latest version (or there was none); the store gained the sealed segment, bound to `v`,
 /// under v-PARENT-v and `latest` names `v` (then cleanup may have run)
@@ -63,6 +369,9 @@ pub struct CloudServer<SVC: Service> {
 //@extract src/server/cloud/server.rs :: const DEFAULT_CLEANUP_PROBABILITY
 const DEFAULT_CLEANUP_PROBABILITY: u8 = 13;
 //@end
+//@extract src/server/cloud/server.rs :: const MAX_VERSION_AGE_SECS
+const MAX_VERSION_AGE_SECS: u64 = 3600 * 24 * 180;
+//@end
 //@extract src/server/cloud/server.rs :: const LATEST
 const LATEST: &'static str = "latest";
 //@end
@@ -108,13 +417,276 @@ impl<SVC: Service> CloudServer<SVC> {
     fn snapshot_urgency(&mut self) -> (r: Result<SnapshotUrgency>)
         ensures final(self).objs() == old(self).objs(), final(self).cryptor == old(self).cryptor,
     { unimplemented!() }
-//@watch C08 C11 :: src/server/cloud/server.rs :: impl<SVC: Service> CloudServer<SVC> :: fn maybe_cleanup
-//@watch C08 C11 :: src/server/cloud/server.rs :: impl<SVC: Service> CloudServer<SVC> :: fn cleanup
+//@watch C08 C10 C11 :: src/server/cloud/server.rs :: impl<SVC: Service> CloudServer<SVC> :: fn parse_version_name
+    /// TRUSTED (hex/slice code outside the verifier's reach, hashed): the inverse of version_name, None for every other name
     #[verifier::external_body]
-    fn maybe_cleanup(&mut self) -> (r: Result<()>)
-        ensures cleanup_rel(old(self).objs(), final(self).objs()), final(self).cryptor == old(self).cryptor,
+    fn parse_version_name(name: &str) -> (r: Option<(VersionId, VersionId)>)
+        ensures match r { Some((p, c)) => name@ == vname(p, c), None => forall|p: Uuid, c: Uuid| name@ != #[trigger] vname(p, c) }
+    { unimplemented!() }
+//@watch C08 C10 C13 :: src/server/cloud/server.rs :: impl<SVC: Service> CloudServer<SVC> :: fn parse_snapshot_name
+    #[verifier::external_body]
+    fn parse_snapshot_name(name: &str) -> (r: Option<VersionId>)
+        ensures match r { Some(v) => name@ == sname(v), None => forall|v: Uuid| name@ != #[trigger] sname(v) }
+    { unimplemented!() }
+//@watch C10 :: src/server/cloud/server.rs :: impl<SVC: Service> CloudServer<SVC> :: fn randint
+    #[verifier::external_body]
+    fn randint(&self) -> (r: Result<u8>)
     { unimplemented!() }
 
+//@props C10 C08 C11
+//@extract src/server/cloud/server.rs :: impl<SVC: Service> CloudServer<SVC> :: fn maybe_cleanup
+    fn maybe_cleanup(&mut self) -> (r: Result<()>)
+        ensures cleanup_rel(old(self).objs(), final(self).objs()), final(self).cryptor == old(self).cryptor,
+{
+        if self.randint()? < self.cleanup_probability {
+            self.cleanup_probability = DEFAULT_CLEANUP_PROBABILITY;
+            self.cleanup()
+        } else {
+            Ok(())
+        }
+    }
+//@end
+
+//@extract src/server/cloud/server.rs :: impl<SVC: Service> CloudServer<SVC> :: fn cleanup | R16 R34 R35 R36=snapshots R29res R28=Uuid->Option<Uuid>
+    #[verifier::exec_allows_no_decreases_clause]
+    #[verifier::loop_isolation(false)]
+    #[verifier::allow_complex_invariants]
+    #[verifier::rlimit(60)]
+    fn cleanup(&mut self) -> (r: Result<()>)
+        ensures final(self).cryptor == old(self).cryptor, final(self).cleanup_probability == old(self).cleanup_probability,
+            //@ob C10 C08 C11 cleanup.only-deletes;-latest,-salt-and-every-object-that-is-neither-a-version-nor-a-snapshot-stay
+            cleanup_rel(old(self).objs(), final(self).objs()),
+            //@ob C10 cleanup.a-deleted-version-is-off-the-chain-and-unable-to-join-it,-or-old-and-at/before-the-retained-snapshot;-a-deleted-snapshot-is-made-redundant-by-the-retained-newest-one-on-the-chain
+            unique_parent(old(self).objs()) ==> cleanup_post(old(self).objs(), old(self).service.ctimes(), final(self).objs()),
+{
+        let ghost s0 = self.service.objs();
+        let ghost ct0 = self.service.ctimes();
+        let ghost up = unique_parent(s0);
+        let ghost mut ls: Option<(Uuid, nat)> = None;
+        proof {
+            lemma_names_other();
+            lemma_inits(s0, ct0, Seq::empty(), Seq::empty(), None);
+        }
+        let mut versions = {
+            let mut versions = Vec::new();
+            let mut iterator = self.service.list("v-");
+            let ghost all = iterator.names();
+            let ghost allct = iterator.ctimes();
+            let ghost mut kk: int = 0;
+            proof { lemma_inits(s0, ct0, all, allct, None); }
+            while let Some(res) = iterator.next()
+                invariant self.service.objs() == s0, self.cryptor == old(self).cryptor, self.cleanup_probability == old(self).cleanup_probability,
+                    0 <= kk <= all.len(), allct.len() == all.len(), iterator.names() == all.skip(kk), iterator.ctimes() == allct.skip(kk),
+                    listed(versions@, all, allct, kk),
+                ensures kk == all.len(),
+            {
+                let ghost before = versions@;
+                match res {
+                    Ok(ObjectInfo { name, creation }) => {
+                        proof { assert(name@ == all[kk] && creation == allct[kk]); }
+                        if let Some((p, c)) = Self::parse_version_name(&name) {
+                            versions.push((c, p, creation));
+                        }
+                        proof {
+                            assert(listed_step(before, versions@, all[kk], allct[kk]));
+                            lemma_listed_step(before, versions@, all, allct, kk);
+                            kk = kk + 1;
+                        }
+                    }
+                    Err(e) => return Err(e),
+                }
+            }
+            proof { lemma_listed_done(versions@, all, allct, s0, ct0); axiom_version_list_len(&versions); }
+            versions
+        };
+        vec_sort(&mut versions);
+        let ghost vs = versions@;
+        proof { assert(vers_ok(vs, s0, ct0)); }
+        let parent_of = |c: Uuid| -> (c1_r: Option<Uuid>)
+            requires sorted_by_first(versions@),
+            ensures match c1_r { Some(p) => exists|x: (Uuid, Uuid, u64)| #[trigger] versions@.contains(x) && x.0 == c && x.1 == p, None => forall|x: (Uuid, Uuid, u64)| #[trigger] versions@.contains(x) ==> x.0 != c },
+        {
+            match bsearch_by_first(&versions, &c) {
+                Ok(idx) => Some(versions[idx].1),
+                Err(_) => None,
+            }
+        };
+        let mut rev_chain = HashMap::new();
+        let mut iterations = versions.len() + 1;
+        let latest = self.get_latest()?;
+        let ghost mut n: nat = 0;
+        proof { assert(latest == latest_of(s0)); lemma_inits(s0, ct0, Seq::empty(), Seq::empty(), latest); }
+        if let Some(mut c) = latest {
+            while let Some(p) = parent_of(c)
+                invariant self.service.objs() == s0, versions@ == vs, sorted_by_first(vs), vers_ok(vs, s0, ct0),
+                    1 <= iterations, iterations + n == vs.len() + 1,
+                    up ==> anc(s0, latest, n) == Some(c) && chain_map(rev_chain@, s0, latest, n),
+                ensures up ==> walk_done(rev_chain@, s0, latest, n),
+            {
+                proof {
+                    if up {
+                        let x = choose|x: (Uuid, Uuid, u64)| #[trigger] versions@.contains(x) && x.0 == c && x.1 == p;
+                        assert(vs.contains((c, p, x.2)));
+                        assert(has_child_obj(s0, p, c));
+                        lemma_chain_step(rev_chain@, s0, latest, n, c, p);
+                    }
+                }
+                rev_chain.insert(c, p);
+                c = p;
+                iterations -= 1;
+                if iterations == 0 {
+                    return Err(Error::Server(into_conv("Version cycle detected")));
+                }
+                proof { n = n + 1; }
+            }
+        }
+        proof {
+            if up {
+                if latest is None { assert(anc(s0, latest, 1) is None); }
+                assert(walk_done(rev_chain@, s0, latest, n));
+            }
+        }
+        let age_threshold = {
+            let now = (match SystemTime::now().duration_since(UNIX_EPOCH) {
+                Ok(t) => Ok(t.as_secs()),
+                Err(r29_e) => Err(r29_e),
+            })
+                .unwrap_or(0);
+            now.saturating_sub(MAX_VERSION_AGE_SECS)
+        };
+        proof { assert(age_threshold == retention_threshold()); }
+        let old_versions: HashSet<Uuid> = {
+            let mut it1_acc = HashSet::new();
+            for it1_x in it_it1_x: versions.iter()
+                invariant forall|x: Uuid| #![trigger it1_acc@.contains(x)] it1_acc@.contains(x) ==> exists|p: Uuid, t: u64| #[trigger] vs.contains((x, p, t)) && t < age_threshold,
+            {
+                let (c, _, creation) = it1_x;
+                proof { let k = it_it1_x.index() as int; assert(vs[k] == *it1_x); assert(vs.contains(vs[k])); assert(vs.contains((*c, vs[k].1, *creation))); }
+                let it1_o1 = {
+                    if *creation < age_threshold {
+                        Some(*c)
+                    } else {
+                        None
+                    }
+                };
+                if let Some(it1_y1) = it1_o1 {
+                    it1_acc.insert(it1_y1);
+                }
+            }
+            it1_acc
+        };
+        for (c, p, _) in it_c: versions
+            invariant sub_store(self.service.objs(), s0), kept_other(s0, self.service.objs()), up ==> cleanup_shape(s0, ct0, self.service.objs(), None),
+        {
+            proof { let k = it_c.index() as int; assert(vs[k].0 == c && vs[k].1 == p); assert(vs.contains(vs[k])); assert(vs.contains((c, p, vs[k].2))); assert(has_child_obj(s0, p, c)); }
+            if rev_chain.get(&c) != Some(&p) && Some(p) != latest {
+                proof {
+                    if up { lemma_walk_links(rev_chain@, s0, latest, n, p, c); assert(ver_deleted_ok(s0, ct0, None, p, c)); }
+                    lemma_del_version(s0, ct0, self.service.objs(), None, p, c, up);
+                }
+                self.service.del(&Self::version_name(&p, &c))?;
+            }
+        }
+        let ghost cur1 = self.service.objs();
+        let snapshots = {
+            let mut snapshots = HashSet::new();
+            let mut iterator = self.service.list("s-");
+            let ghost all = iterator.names();
+            let ghost mut kk: int = 0;
+            proof { lemma_inits(s0, ct0, all, Seq::empty(), None); }
+            while let Some(res) = iterator.next()
+                invariant self.service.objs() == cur1, 0 <= kk <= all.len(), iterator.names() == all.skip(kk),
+                    snaps_listed(snapshots@, all, kk),
+                ensures kk == all.len(),
+            {
+                let ghost before = snapshots@;
+                match res {
+                    Ok(ObjectInfo { name, .. }) => {
+                        proof { assert(name@ == all[kk]); }
+                        if let Some(parsed_name) = Self::parse_snapshot_name(&name) {
+                            snapshots.insert(parsed_name);
+                        }
+                        proof {
+                            assert(snaps_step(before, snapshots@, all[kk]));
+                            lemma_snaps_step(before, snapshots@, all, kk);
+                            kk = kk + 1;
+                        }
+                    }
+                    Err(e) => return Err(e),
+                }
+            }
+            proof { lemma_snaps_done(snapshots@, all, cur1); }
+            snapshots
+        };
+        let mut latest_snapshot = None;
+        let ghost mut m: nat = 0;
+        if let Some(mut version) = latest {
+            loop
+                invariant_except_break latest_snapshot is None,
+                invariant self.service.objs() == cur1,
+                    up ==> anc(s0, latest, m) == Some(version) && no_snap_before(s0, latest, m),
+                ensures up ==> (match latest_snapshot { Some(sv) => anc(s0, latest, m) == Some(sv) && snapshots@.contains(sv) && no_snap_before(s0, latest, m), None => true }),
+            {
+                if snapshots.contains(&version) {
+                    latest_snapshot = Some(version);
+                    break;
+                }
+                if let Some(v) = rev_chain.get(&version) {
+                    proof { if up { lemma_link_at(rev_chain@, s0, latest, n, m, version); if s0.dom().contains(sname(version)) { lemma_no_snapshot_deleted(s0, ct0, cur1, version); } assert(!s0.dom().contains(sname(version))); } }
+                    version = *v;
+                    proof { m = m + 1; }
+                } else {
+                    break;
+                }
+            }
+        }
+        let Some(latest_snapshot) = latest_snapshot else {
+            return Ok(());
+        };
+        proof {
+            ls = Some((latest_snapshot, m));
+            if up {
+                assert(anc(s0, latest, n + 1) is None);
+                assert(cur1.dom().contains(sname(latest_snapshot)));
+                lemma_set_ls(s0, ct0, cur1, latest_snapshot, m, n + 1);
+            }
+        }
+        for version in it_version: hashset_into_vec(snapshots)
+            invariant sub_store(self.service.objs(), s0), kept_other(s0, self.service.objs()), up ==> cleanup_shape(s0, ct0, self.service.objs(), ls),
+        {
+            if version != latest_snapshot {
+                proof { lemma_del_snapshot(s0, ct0, self.service.objs(), (latest_snapshot, m), version, up); }
+                self.service.del(&Self::snapshot_name(&version))?;
+            }
+        }
+        let mut version = latest_snapshot;
+        let ghost mut kx: nat = m;
+        while let Some(parent) = rev_chain.get(&version)
+            invariant sub_store(self.service.objs(), s0), kept_other(s0, self.service.objs()), up ==> cleanup_shape(s0, ct0, self.service.objs(), ls),
+                kx >= m, up ==> anc(s0, latest, kx) == Some(version),
+        {
+            proof { if up { lemma_link_at(rev_chain@, s0, latest, n, kx, version); } }
+            if old_versions.contains(&version) {
+                proof {
+                    if up {
+                        let (p0, t0) = choose|p0: Uuid, t0: u64| #[trigger] vs.contains((version, p0, t0)) && t0 < age_threshold;
+                        assert(has_child_obj(s0, p0, version));
+                        assert(has_child_obj(s0, *parent, version));
+                        assert(p0 == *parent && t0 == ct0[vname(*parent, version)]);
+                        assert(chain_link(s0, latest, kx, *parent, version));
+                        assert(ver_deleted_ok(s0, ct0, ls, *parent, version));
+                    }
+                    lemma_del_version(s0, ct0, self.service.objs(), ls, *parent, version, up);
+                }
+                self.service
+                    .del(&Self::version_name(parent, &version))?;
+            }
+            version = *parent;
+            proof { kx = kx + 1; }
+        }
+        Ok(())
+    }
+//@end
 //@props C13
 //@extract src/server/cloud/server.rs :: impl<SVC: Service> CloudServer<SVC> :: fn new | R16
     pub fn new(
